@@ -180,6 +180,22 @@ theorem backward_ext_reverse_partial (t sa : List Nat) (less : Nat → Nat) (occ
       ((FMDModel.backwardExt less occ iv a).lowerRev + (FMDModel.backwardExt less occ iv a).size) :=
   FMDModel.backwardExt_reverse t sa less occ a Q iv ha hchk hQ hiv hin halpha hsym
 
+/-- the same on an FMD text `fmdText seqs` (sequences over `ACGTNacgtn`): the two side conditions are discharged
+(the text ends with `$`, every occurrence of a DNA string is followed by a text symbol, all text symbols are in
+`$ACGTNacgtn`); **only strand symmetry `hsym` remains a hypothesis**. -/
+theorem backward_ext_reverse_fmd_partial (seqs : List (List Nat)) (sa : List Nat) (less : Nat → Nat)
+    (occ : Nat → Nat → Nat) (a : Nat) (Q : List Nat) (iv : FMDModel.Bi) (ha : a ∈ FMDModel.order)
+    (hne : seqs ≠ []) (hseqs : ∀ s ∈ seqs, ∀ c ∈ s, FMDModel.isDna c = true)
+    (hchk : LF.sortedAllB (fmdText seqs) sa = true)
+    (hQ : ∀ q ∈ Q, FMDModel.isDna q = true)
+    (hiv : BSModel.IvOf (fmdText seqs) sa Q iv.lowerRev (iv.lowerRev + iv.size))
+    (hsym : ∀ b ∈ FMDModel.order, FMDModel.cntOf occ iv b =
+      (List.range iv.size).countP
+        (fun i => (fmdText seqs).getD (sa.getD (iv.lowerRev + i) 0 + Q.length) 0 == dnaCompl b)) :
+    BSModel.IvOf (fmdText seqs) sa (Q ++ [dnaCompl a]) (FMDModel.backwardExt less occ iv a).lowerRev
+      ((FMDModel.backwardExt less occ iv a).lowerRev + (FMDModel.backwardExt less occ iv a).size) :=
+  FMDModel.backwardExt_reverse_fmd seqs sa less occ a Q iv ha hne hseqs hchk hQ hiv hsym
+
 /-- `revcomp (a :: P) = revcomp P ++ [complement a]` — the string whose rows the reverse interval has to hold -/
 theorem revcomp_cons (a : Nat) (P : List Nat) : revcomp (a :: P) = revcomp P ++ [dnaCompl a] := by
   simp [revcomp]
